@@ -90,7 +90,10 @@ def run(chk):
     chk.rule = ("seeded cases from tools/gen_prp.py over the 12 instantiated pairs {C,NNC polyhedron, Grid, Rational_Box, BD_Shape<mpq>} x the 5 policies "
                 "(Direct, Smash, Constraints, Congruences, Shape_Preserving): (shrink) a grid congruence against a component bounded in its direction, "
                 "range width drawn from {<m, =m, <2m, =2m, >2m, 0} with closed/open ends, rational bounds, negative values, both call directions, then "
-                "reduce(); (transformer) EVERY transformer of the product (affine / generalized -- both overloads -- / bounded images and preimages, unconstrain of a "
+                "reduce(); (predicate) relation_with a Constraint / Congruence / Generator, contains, is_disjoint_from, maximize / minimize, bounds on every layout: thin slabs "
+                "with rational bounds placed beyond the hyperplane of a congruence nearest to zero and touching / crossing / stopping short of the next one "
+                "(negative coefficients and residues), generator arguments with non-unit divisors (numerators alone satisfying the grid's congruences, or real "
+                "points of the intersection), rays, lines, constraints on the hyperplanes; (transformer) EVERY transformer of the product (affine / generalized -- both overloads -- / bounded images and preimages, unconstrain of a "
                 "variable and of a set, time_elapse, all dimension changes incl. remove / map / expand / fold, intersection, upper bound, difference, widening, "
                 "concatenate, closure) on layouts with a non-grid second and / or first component (Grid x C, C x NNC, NNC x NNC, Box x C, BDS x C, C x BDS, "
                 "Box x Octagon, NNC x Box, ...) with relations whose image and preimage differ; (period) grids with NON-INTEGRAL periods (k*x_i = r mod m, k not dividing m, mixed congruences with non-unit coefficients) against "
@@ -190,6 +193,8 @@ def run(chk):
         site, kind = site_of(f)
         if "[grid-maxmin]" in f.detail:
             site, kind = "Grid::max_min", "via " + site + " " + kind
+        if "[component-relation-cg " in f.detail:
+            site, kind = "Box/BD_Shape/Octagonal_Shape::relation_with(Congruence)", "component-wrong-definite-answer"
         if "[not-idempotent]" in f.detail:
             kind = "reduce-not-idempotent"
         info = {"site": site, "kind": kind, "policy_pair": byid.get(f.case, ["case ? ? ?"])[0].split(" ")[2:4], "detail": f.detail}
